@@ -172,11 +172,13 @@ pub fn cmd_loop_run(args: &[String]) -> i32 {
     0
 }
 
-/// tick-budget <cfg.kbd> <out.json>
-/// Observation for spec/Loop.tla's TickBudget probe (not a verdict): with less than 1 ms elapsed `handle_time_ticks`
-/// keeps last_tick AND carries the elapsed time in time_remainder, so the next call counts the interval twice.
-/// Sets "0 ms elapsed", busy-waits ~0.6 ms, calls handle_time_ticks twice back to back (hooks behind cfg(kanata_verif)).
-/// Without double counting the two calls return 0 and 0 (0.6 ms elapsed in total); observed: [0, 1].
+/// tick-budget <cfg.kbd> <out.ndjson>
+/// The tick clock of the processing loop on the real code (hooks behind cfg(kanata_verif)): sets "0 ms elapsed",
+/// busy-waits ~0.6 ms, calls handle_time_ticks twice back to back and records how many ticks each call executed and
+/// how much wall clock passed in total.  Only a clean sample (first call 0 ticks, < 0.9 ms in total, so that no
+/// scheduling delay can explain a tick) is written, in the pair format (mode "tickclock"); P_C07!TickClockErr (TLC)
+/// judges it: executed ticks * 1 ms <= elapsed time.  (Before fix a46d9fa the calls returned 0 and 1: an interval
+/// shorter than 1 ms was kept in last_tick AND carried in time_remainder.)
 pub fn cmd_tick_budget(args: &[String]) -> i32 {
     let text = std::fs::read_to_string(&args[0]).expect("cfg file");
     let mut sim = match Sim::new(&text, &[]) {
@@ -186,9 +188,11 @@ pub fn cmd_tick_budget(args: &[String]) -> i32 {
             return 2;
         }
     };
-    let mut attempts = vec![];
-    let mut observed = false;
-    for _ in 0..200 {
+    let mut w = BufWriter::new(std::fs::File::create(&args[1]).expect("out file"));
+    let mut tries = 0u64;
+    let mut clean = 0u64;
+    while tries < 400 && clean < 5 {
+        tries += 1;
         sim.k.verif_set_elapsed_ms(0);
         let t0 = Instant::now();
         while t0.elapsed() < Duration::from_micros(600) {
@@ -197,17 +201,16 @@ pub fn cmd_tick_budget(args: &[String]) -> i32 {
         let a = sim.k.verif_handle_time_ticks(&None).unwrap_or(999);
         let b = sim.k.verif_handle_time_ticks(&None).unwrap_or(999);
         let us = t0.elapsed().as_micros() as u64;
-        if attempts.len() < 5 {
-            attempts.push(json!({"first": a, "second": b, "elapsed_us": us}));
-        }
-        if a == 0 && us < 1000 {
-            // a clean sample: less than 1 ms of wall clock in total
-            observed = b >= 1;
-            attempts.push(json!({"clean": true, "first": a, "second": b, "elapsed_us": us}));
-            break;
+        if a == 0 && us < 900 {
+            writeln!(w, "{}", json!({"e":"pair","mode":"tickclock","job":"tickclock","case":clean,"cut":0,"K":0,"cont":"all",
+                "down":[],"pre":{"osp":0,"ost":0,"nosk":0,"kdiff":false,"cv2edge":false,"drec":false},"gap":[],"A":[],"B":[],
+                "ticks":[a, b],"elapsed_us":us})).unwrap();
+            clean += 1;
         }
     }
-    let res = json!({"double_count_observed": observed, "samples": attempts});
-    std::fs::write(&args[1], serde_json::to_string(&res).unwrap()).unwrap();
+    writeln!(w, "{}", json!({"e":"case","job":"tickclock","case":0,"steps":0,"scanned":0,"ticks":0,"cbticks":0,
+        "points":clean,"used":clean,"problem":""})).unwrap();
+    writeln!(w, "{}", json!({"e":"end"})).unwrap();
+    w.flush().unwrap();
     0
 }
